@@ -3,5 +3,7 @@ CHECK_DEADLOCK FALSE
 CONSTANTS
   MaxNodes = 3
   D = 3
+  SampleMod = 1
+  SampleRem = 0
 INVARIANTS
   Emit
